@@ -112,7 +112,7 @@ class NoiseServer(object):
                     sh = wa20_pb2.HandshakeMessage()
                     sh.server_hello.ephemeral = bytes(mb[:32])
                     sh.server_hello.payload = self._maybe_corrupt(bytes(mb[32:]))
-                    self._seg(sh.SerializeToString())
+                    self._seg(self._damage(sh))
                     self.recv_cs, self.send_cs = cs[0], cs[1]
                     self.client_rs = hs.rs
                     self.state = "transport"
@@ -134,7 +134,7 @@ class NoiseServer(object):
             sh.server_hello.ephemeral = bytes(mb[:32])
             sh.server_hello.static = bytes(mb[32:80])
             sh.server_hello.payload = self._maybe_corrupt(bytes(mb[80:]))
-            self._seg(sh.SerializeToString())
+            self._seg(self._damage(sh))
             self.hs = hs
             self.state = "finish"
         elif self.state == "finish":
@@ -158,9 +158,34 @@ class NoiseServer(object):
                 raise ProtocolViolation("transport frame %d does not decrypt in arrival order: %r" % (len(self.frames), e))
 
     def _maybe_corrupt(self, payload):
-        if self.corrupt_hello and payload:
+        if self.corrupt_hello is True and payload:
             return bytes([payload[0] ^ 0x55]) + payload[1:]
         return payload
+
+    def _damage(self, sh):
+        """corrupt_hello = True: first payload byte flipped (above); or a string naming another way in which the reply is not the
+        authentic one: <field>_flip (last byte), <field>_short (truncated to 10 bytes), <field>_empty, no_server_hello, garbage"""
+        how = self.corrupt_hello
+        if not isinstance(how, str):
+            return sh.SerializeToString()
+        if how == "no_server_hello":
+            m = wa20_pb2.HandshakeMessage()
+            m.client_finish.static = b"\x01\x02\x03"      # a handshake message, but not the one that is due
+            return m.SerializeToString()
+        if how == "garbage":
+            return b"\xff\xfe\xfd\x00\x01garbage"
+        field, what = how.rsplit("_", 1)
+        cur = bytes(getattr(sh.server_hello, field))
+        if what == "flip":
+            new = cur[:-1] + bytes([cur[-1] ^ 0x21]) if cur else b"\x01"
+        elif what == "short":
+            new = cur[:10]
+        elif what == "empty":
+            new = b""
+        else:
+            raise ValueError(how)
+        setattr(sh.server_hello, field, new)
+        return sh.SerializeToString()
 
     def send_frame(self, plaintext):
         self._seg(self.send_cs.encrypt_with_ad(b"", plaintext))
